@@ -33,7 +33,7 @@ import (
 
 type cs struct {
 	Circ     int      `json:"circuit"`
-	Programs []string `json:"programs"` // one per thread: G garble, g garble with failing randomness, E eval+check newest, R release newest, r release newest twice, d release the most recently released garbling once more (stale handle), C compute+check, S a whole Garbler/Evaluator session on the shared circuit
+	Programs []string `json:"programs"` // one per thread: G garble, g garble with failing randomness, E eval+check newest, R release newest, r release newest twice, d release the most recently released garbling once more (stale handle), K refill the thread's key buffer in place, C compute+check, S a whole Garbler/Evaluator session on the shared circuit
 	F        int      `json:"f,omitempty"`
 	P        int      `json:"p"`
 	E        int      `json:"e"`
@@ -219,7 +219,8 @@ func (w *world) thread(tid int, prog string) func() {
 					w.fail("wrong-result: thread %d Garble: %v", tid, err)
 					return
 				}
-				l := &live{g: g, key: key, owner: tid}
+				// the garbling is judged with the key value it was made with (the caller may refill its buffer)
+				l := &live{g: g, key: append([]byte(nil), key...), owner: tid}
 				mine = append(mine, l)
 				w.lives = append(w.lives, l)
 			case 'g':
@@ -251,6 +252,11 @@ func (w *world) thread(tid int, prog string) func() {
 				// a late second Release through a stale handle: others may have garbled in between
 				if len(released) > 0 {
 					released[len(released)-1].Release()
+				}
+			case 'K':
+				// the caller refills its key buffer in place: later garblings use a new key in the same array
+				for i := range key {
+					key[i] ^= 0x5a
 				}
 			case 'C':
 				w.checkCompute(tid)
@@ -390,8 +396,8 @@ func work(ctx *runner.Ctx) {
 	if err := csched.SelfTest(); err != nil {
 		panic(err)
 	}
-	progs2 := []string{"GER", "GRGE", "GErr", "C", "gGER", "GGERR", "GREG", "GRdGE"}
-	progs3 := []string{"GER", "GRGE", "C", "gGE", "GRd"}
+	progs2 := []string{"GER", "GRGE", "GErr", "C", "gGER", "GGERR", "GREG", "GRdGE", "GRKGE"}
+	progs3 := []string{"GER", "GRGE", "C", "gGE", "GRd", "GERKGE"}
 	var cases []cs
 	// whole protocol sessions sharing the circuit with each other and with direct users
 	for _, ci := range sessionCircuits {
